@@ -141,6 +141,18 @@ pub struct Regs {
 }
 
 impl Regs {
+    /// Verification hook: Q latch as left by the last executed instruction
+    #[cfg(rustzx_verif)]
+    pub fn verif_q(&self) -> u8 {
+        self.q
+    }
+
+    /// Verification hook: sets the Q latch
+    #[cfg(rustzx_verif)]
+    pub fn verif_set_q(&mut self, value: u8) {
+        self.q = value;
+    }
+
     pub fn get_reg_8(&self, index: RegName8) -> u8 {
         match index {
             RegName8::A => self.a,
